@@ -35,6 +35,10 @@ func init() {
 		"vsymstr":      primSymStr,
 		"vscannerSplit": primScannerSplit,
 		"vsolver":       primSolver,
+		"vpin":          primPin,
+		"vpinInt":       primPinInt,
+		"vobserve":      primObserve,
+		"vreadfile":     primReadFile,
 		"vprint": func(e *Exec, a []Value) Value {
 			fmt.Fprintf(os.Stderr, "VPRINT %s = %s\n", a[0].(Str).Conc(), e.describe(a[1].(Iface).V))
 			return nil
@@ -429,4 +433,47 @@ func primSolver(e *Exec, a []Value) Value {
 	e.sol = so
 	e.sol.Push()
 	return nil
+}
+
+// vpin(s): the same string, but every byte is a fresh symbolic constant constrained to its value: forces the symbolic
+// code paths of the models while keeping a known expected result (translator validation).
+func primPin(e *Exec, a []Value) Value {
+	s := a[0].(Str).Conc()
+	bs := make([]Int, len(s))
+	for i := 0; i < len(s); i++ {
+		t := e.fresh("p", e.intSort(8))
+		x := Int{W: 8, S: t}
+		e.assume(e.intCmp(token.EQL, x, Int{W: 8, C: int64(s[i])}))
+		// keep it symbolic: do not attach a point interval
+		bs[i] = Int{W: 8, S: &Term{Name: t.Name, Sort: t.Sort, Lo: 0, Hi: 255, Bnd: true}}
+	}
+	if len(bs) == 0 {
+		return Str{}
+	}
+	return Str{S: bs}
+}
+
+func primPinInt(e *Exec, a []Value) Value {
+	v := a[0].(Int)
+	t := e.fresh("p", e.intSort(64))
+	x := Int{W: 64, Sg: true, S: t}
+	e.assume(e.intCmp(token.EQL, x, v))
+	lo, hi := v.C-1000, v.C+1000
+	if v.C < -(1<<62) || v.C > 1<<62 {
+		return Int{W: 64, Sg: true, S: &Term{Name: t.Name, Sort: t.Sort}}
+	}
+	return Int{W: 64, Sg: true, S: &Term{Name: t.Name, Sort: t.Sort, Lo: lo, Hi: hi, Bnd: true}}
+}
+
+func primObserve(e *Exec, a []Value) Value {
+	e.observed = append(e.observed, a[0].(Str).Conc()+"="+a[1].(Str).Conc())
+	return nil
+}
+
+func primReadFile(e *Exec, a []Value) Value {
+	b, err := os.ReadFile(a[0].(Str).Conc())
+	if err != nil {
+		panic(unsupported("vreadfile: " + err.Error()))
+	}
+	return Str{C: string(b)}
 }
